@@ -1,6 +1,7 @@
 package main
 
 import (
+	"time"
 	"bufio"
 	"bytes"
 	"crypto/sha256"
@@ -104,6 +105,18 @@ func execChangelog(vec J, out *Writer) {
 			o := parseCL(b[:c])
 			cuts = append(cuts, J{"ok": o.ok, "n": len(o.entries), "ids": idsOf(o.entries), "panic": o.panicky})
 		}
+		// the same text parsed while the process lives in other time zones (daylight-saving ones among them): an entry's
+		// instant and offset are what its trailer says, wherever and whenever it is parsed
+		tz := []interface{}{}
+		saved := time.Local
+		for _, z := range []string{"Europe/Berlin", "America/New_York", "Australia/Lord_Howe", "UTC"} {
+			if loc, err := time.LoadLocation(z); err == nil {
+				time.Local = loc
+				o := parseCL(b)
+				tz = append(tz, J{"zone": z, "ok": o.ok, "ids": idsOf(o.entries)})
+			}
+		}
+		time.Local = saved
 		// the source FAILS (an I/O error, not end of input) after c bytes, for every c
 		faults := []interface{}{}
 		for c := 0; c <= len(b); c++ {
@@ -127,7 +140,7 @@ func execChangelog(vec J, out *Writer) {
 		}
 		lean := J{"k": "cl", "entries": vec["entries"], "lead": vec["lead"], "gap": vec["gap"], "final": vec["final"], "bytes": vec["bytes"], "ends": vec["ends"]}
 		out.Put(J{"ev": "cl", "in": lean, "full": J{"ok": full.ok, "panic": full.panicky, "entries": detail, "ids": idsOf(full.entries)},
-			"cuts": cuts, "faults": faults, "steps": steps})
+			"cuts": cuts, "faults": faults, "tz": tz, "steps": steps})
 	case "clraw":
 		// corrupted changelog text: only "all entries or an error"
 		b := []byte(S(vec["bytes"]))
